@@ -67,7 +67,7 @@ class G:
 
     def string(self):
         r = self.r
-        n = r.choice([0, 1, 3, 8, 20])
+        n = r.choice([0, 1, 3, 8, 20, 20, 62, 63, 254, 255, 256, 300 + r.below(5000)]) if r.chance(1, 3) else r.choice([0, 1, 3, 8, 20])
         s = [1 + r.below(126) for _ in range(n)]
         if r.chance(1, 5):      # multi-byte UTF-8 characters
             s += list(r.choice(["\u00e9", "\u20ac", "\U0001f600"]).encode("utf-8"))
@@ -185,7 +185,7 @@ class G:
             return {"t": k, "path": self.path(), "level": r.scalar(1), "order": r.scalar(2), "ch": chs()}
         if k == "Field":
             fs = []
-            for _ in range(r.choice([0, 1, 2, 4])):
+            for _ in range(r.choice([0, 1, 2, 4, 4, 13, 60, 300]) if r.chance(1, 4) else r.choice([0, 1, 2, 4])):
                 bits = r.choice([0, 1, 8, 62, 63, 64, 4094, 4095, 4096, 1048575, 1048576, 268435455, r.below(1 << 28)])
                 fs.append({"k": "named", "name": chars(self.plain_seg()), "bits": bits} if r.chance(2, 3)
                           else {"k": "reserved", "bits": bits})
@@ -221,7 +221,7 @@ class G:
         if k == "Mid":
             return {"t": k, "src": child(), "idx": child(), "len": child(), "res": child()}
         if k == "MethodCall":
-            n = r.below(4) if kids is None else len(kids)
+            n = r.choice([0, 1, 2, 3, 3, 5, 7]) if kids is None else len(kids)
             args = kids if kids is not None else [child() for _ in range(n)]
             return {"t": k, "path": chars(self.method_name(len(args))), "args": args}
         raise ValueError(k)
